@@ -197,6 +197,8 @@ def perturb(t, regime, gen):
                 p.zero_()
             elif regime == 'normal':
                 p.add_(0.5 * torch.randn(p.shape, generator=gen, dtype=p.dtype))
+                if n.endswith('temperature'):
+                    p.abs_().clamp_(min=0.05)     # a learnt temperature stays a positive number: log(T) is part of the log-det
             elif regime == 'wide':
                 if 'final_layer' in n or 'unnorm' in n or n.startswith('transform_net.l2'):
                     p.mul_(3.0).add_(2.0 * torch.randn(p.shape, generator=gen, dtype=p.dtype))
